@@ -43,10 +43,11 @@ Fixpoint ceval (e : env) (c : cond) : option bool :=
   end.
 
 (** in which read-only contexts a mutator is forbidden *)
-Inductive kind := KAny (* under Q or V *) | KQ (* under Q *) | KV (* under V *).
+Inductive kind := KAny (* under Q or V *) | KQ (* under Q *) | KV (* under V *)
+                | KNever (* never forbidden: a tracked effect of the recovery-point analysis, VmGuard/RecPoint.v *).
 
 Definition forbidden (k : kind) (e : env) : bool :=
-  match k with KAny => eQ e || eV e | KQ => eQ e | KV => eV e end.
+  match k with KAny => eQ e || eV e | KQ => eQ e | KV => eV e | KNever => false end.
 
 Inductive stmt :=
 | Skip | Seq (a b : stmt) | If (c : cond) (a b : stmt) | Loop (s : stmt) | Return | Defer (s : stmt)
